@@ -137,9 +137,16 @@ type mgrIn struct {
 	FeeIn [5]uint64 `json:"fee_in"`
 }
 
-func callNext(in *nextIn) (uint64, []uint64) {
-	p, w := ifees.VerifComputeNextPriceWindow(mkWin(in.W), in.Consumed, in.Price, in.Target, in.Denom, in.MinP, in.Since)
-	return p, winSlots(w)
+// callNext runs the implementation; a panic is reported as an impossible observation (empty window), so
+// that the case fails both oracles and is written out as the failing input.
+func callNext(in *nextIn) (p uint64, w []uint64) {
+	defer func() {
+		if e := recover(); e != nil {
+			p, w = 0, nil
+		}
+	}()
+	pp, ww := ifees.VerifComputeNextPriceWindow(mkWin(in.W), in.Consumed, in.Price, in.Target, in.Denom, in.MinP, in.Since)
+	return pp, winSlots(ww)
 }
 
 func runNext(in c13In) emit.Case {
@@ -160,17 +167,31 @@ func runNext(in c13In) emit.Case {
 
 func runMono(in c13In) emit.Case {
 	n := in.Next
-	p1, _ := callNext(n)
+	p1, w1 := callNext(n)
 	n2 := *n
 	n2.W, n2.Consumed = in.W2, in.C2
-	p2, _ := callNext(&n2)
+	p2, w2 := callNext(&n2)
+	if w1 == nil || w2 == nil { // panic: report it as a failing next-price case
+		bad := in
+		bad.Type = "next"
+		if w1 != nil {
+			bad.Next = &n2
+		}
+		return runNext(bad)
+	}
 	coq := emit.App("CMono", nlist(n.W), emit.N(n.Consumed), nlist(in.W2), emit.N(in.C2), emit.N(n.Price), emit.N(n.Target),
 		emit.N(n.Denom), emit.N(n.MinP), emit.N(n.Since), emit.N(p1), emit.N(p2))
 	return emit.Case{Coq: coq, JSON: in, Nontrivial: p1 != p2, Kind: "mono:" + in.Cls, Sig: "higher-usage-lower-price"}
 }
 
-func runWin(in c13In) emit.Case {
+func runWin(in c13In) (c emit.Case) {
 	wi := in.Win
+	defer func() {
+		if e := recover(); e != nil {
+			c = emit.Case{Coq: emit.App("CWin", nlist(wi.W), emit.N(wi.R), emit.Nat(wi.Slot), emit.N(wi.V), "(@nil N)", "0%N", "(@nil N)", "0%N"),
+				JSON: in, Nontrivial: true, Kind: "win:panic", Sig: "window-panic"}
+		}
+	}()
 	w := mkWin(wi.W)
 	rolled := window.Roll(w, wi.R)
 	sum := window.Sum(w)
@@ -189,8 +210,14 @@ func (r rules) GetUnitPriceChangeDenominator() hfees.Dimensions { return r.denom
 func (r rules) GetWindowTargetUnits() hfees.Dimensions          { return r.targets }
 func (r rules) GetMaxBlockUnits() hfees.Dimensions              { return r.max }
 
-func runMgr(in c13In) emit.Case {
+func runMgr(in c13In) (c emit.Case) {
 	mi := in.Mgr
+	defer func() {
+		if e := recover(); e != nil {
+			c = emit.Case{Coq: emit.App("CMgr", blockgen.BytesNum(mi.Raw), "(@nil mop)", "0%nat (@nil N)", "0%N", "(@nil N)", "(@nil N)",
+				"(@nil (list N))", dimsStr(mi.FeeIn), "(@None N)"), JSON: in, Nontrivial: true, Kind: "mgr:panic", Sig: "manager-panic"}
+		}
+	}()
 	raw := append([]byte{}, mi.Raw...)
 	var m *ifees.Manager
 	if len(raw) == 0 {
@@ -242,7 +269,7 @@ func runMgr(in c13In) emit.Case {
 	if err == nil {
 		feeS = emit.Some(emit.N(fee))
 	}
-	coq := emit.App("CMgr", emit.Bytes(mi.Raw), emit.List("mop", ops), emit.Bytes(out), emit.N(ts), dimsStr(prices), dimsStr(lasts),
+	coq := emit.App("CMgr", blockgen.BytesNum(mi.Raw), emit.List("mop", ops), blockgen.BytesNum(out), emit.N(ts), dimsStr(prices), dimsStr(lasts),
 		emit.List("list N", wins), dimsStr(mi.FeeIn), feeS)
 	return emit.Case{Coq: coq, JSON: in, Nontrivial: len(mi.Ops) > 0, Kind: fmt.Sprintf("mgr:next%d", nNext),
 		Sig: "manager-state-roundtrip"}
@@ -379,7 +406,9 @@ func genNext(r *rand.Rand) (nextIn, string) {
 	case 3:
 		in.MinP = bu64(r)
 	case 4:
-		p, _ := ifees.VerifComputeNextPriceWindow(mkWin(in.W), in.Consumed, in.Price, in.Target, in.Denom, 0, in.Since)
+		probe := in
+		probe.MinP = 0
+		p, _ := callNext(&probe)
 		in.MinP = around(r, p)
 	default:
 		in.MinP = uint64(r.Intn(200))
@@ -477,7 +506,47 @@ func genMgr(r *rand.Rand) c13In {
 	return c13In{Type: "mgr", Mgr: &mi}
 }
 
+// price*delta = target*2^64 + eps exactly: the edge of the mulDiv saturation test (hi == c)
+func genHiEqC(r *rand.Rand) (nextIn, string) {
+	a := uint(1 + r.Intn(63))
+	t := uint64(1)
+	if a > 1 {
+		t = 1 + uint64(r.Int63n(int64(uint64(1)<<(a-1))))
+	}
+	if r.Intn(3) == 0 {
+		t = uint64(1 + r.Intn(5))
+	}
+	d := uint64(1) << a
+	p := t << (64 - a)
+	switch r.Intn(4) {
+	case 0:
+		p--
+	case 1:
+		p++
+	}
+	if r.Intn(4) == 0 {
+		d += uint64(r.Intn(3))
+	}
+	in := nextIn{W: make([]uint64, 10), Since: uint64(r.Intn(10)), Denom: genDenom(r), Price: p, Target: t,
+		MinP: pick(r, 0, 100, bu64(r))}
+	total := satAdd(t, d)
+	// split the usage between the parent's consumption and a surviving slot
+	in.Consumed = total
+	if r.Intn(2) == 0 && in.Since < 9 {
+		x := uint64(r.Int63n(1 << 20))
+		if x < total {
+			in.W[9] = x
+			in.Consumed = total - x
+		}
+	}
+	return in, "hiEqC"
+}
+
 func genC13(r *rand.Rand) c13In {
+	if r.Intn(12) == 0 {
+		n, cls := genHiEqC(r)
+		return c13In{Type: "next", Next: &n, Cls: cls}
+	}
 	switch x := r.Intn(20); {
 	case x < 11:
 		n, cls := genNext(r)
@@ -518,13 +587,20 @@ type c33In struct {
 	Cls   string      `json:"cls,omitempty"`
 }
 
-func runC33(in c33In) emit.Case {
+func runC33(in c33In) (c emit.Case) {
 	ds := make([]hfees.Dimensions, len(in.Dims))
 	items := make([]string, len(in.Dims))
 	for i, d := range in.Dims {
 		ds[i] = d
 		items[i] = dimsStr(d)
 	}
+	defer func() {
+		if e := recover(); e != nil {
+			// impossible observation: index n
+			c = emit.Case{Coq: emit.App("mk", emit.List("list N", items), dimsStr(in.Limit), nlist([]uint64{uint64(len(in.Dims))}), "(@nil N)"),
+				JSON: in, Nontrivial: true, Kind: "panic", Sig: "largest-set-panic"}
+		}
+	}()
 	idx, total := hfees.LargestSet(ds, in.Limit)
 	coq := emit.App("mk", emit.List("list N", items), dimsStr(in.Limit), nlist(idx), dimsStr(total))
 	skipped := len(in.Dims) - len(idx)
